@@ -3,6 +3,7 @@ SPECIFICATION Spec
 CONSTANTS
   Order = "code"
   D1Fixed = FALSE
+  HopSafe = TRUE
   CLNormalised = TRUE
   BigBodies = FALSE
   Families = {"mini"}
